@@ -10,13 +10,18 @@ import (
 // RecoverHandler 返回一个异常捕获中间件。
 func RecoverHandler(next http.Handler) http.Handler {
 	return http.HandlerFunc(func(w http.ResponseWriter, r *http.Request) {
+		// 不能用 recover() != nil 判断是否发生了 panic：
+		// panic(nil)（例如 panic(err) 而 err 恰好为 nil）在本模块的 go 版本下 recover() 返回 nil。
+		finished := false
 		defer func() {
-			if result := recover(); result != nil {
+			if !finished {
+				result := recover()
 				internal.Error(r, fmt.Sprintf("%v\n%s", result, debug.Stack()))
 				w.WriteHeader(http.StatusInternalServerError)
 			}
 		}()
 
 		next.ServeHTTP(w, r)
+		finished = true
 	})
 }
